@@ -289,3 +289,64 @@ func ruleHexFn(prog *Program, rep *Report) {
 	}
 	rep.Eval(256)
 }
+
+// ruleFirstByte: G-jp-first. The printer writes a key bare when every byte of it is a token byte
+// of tokenMap; the parser, reading the first fragment of a path, dispatches on the first byte
+// before it consults that table ($ Root, @ At, . [ * ] structural). A byte that has its own case
+// in that dispatch must therefore not be a token byte: a first key `$ref` printed bare would be
+// read back as Root followed by `ref`.
+func ruleFirstByte(prog *Program, rep *Report) {
+	rep.Rules = append(rep.Rules, "G-jp-first: no byte that the path parser's fragment dispatch (parser.nextFrag) gives a case of its own is marked as a token byte in tokenMap: a key starting with such a byte is never printed bare at the head of a path")
+	pk := prog.Pkg("jp")
+	if pk == nil {
+		rep.Errorf("G-jp-first: package jp not loaded")
+		return
+	}
+	info := pk.TypesInfo
+	var table string
+	if o := pk.Types.Scope().Lookup("tokenMap"); o != nil {
+		if c, ok := o.(*types.Const); ok && c.Val().Kind() == constant.String {
+			table = constant.StringVal(c.Val())
+		}
+	}
+	fd, _ := prog.FuncDecl(Method(pk, "parser", "nextFrag"))
+	if len(table) < 256 || fd == nil {
+		rep.Errorf("G-jp-first: tokenMap constant (%d bytes) or parser.nextFrag not found", len(table))
+		return
+	}
+	var best *ast.SwitchStmt
+	ast.Inspect(fd.Body, func(n ast.Node) bool {
+		if sw, ok := n.(*ast.SwitchStmt); ok && sw.Tag != nil && (best == nil || len(sw.Body.List) > len(best.Body.List)) {
+			best = sw
+		}
+		return true
+	})
+	if best == nil {
+		rep.Errorf("G-jp-first: dispatch switch not found in parser.nextFrag")
+		return
+	}
+	n := 0
+	for _, cl := range best.Body.List {
+		for _, e := range cl.(*ast.CaseClause).List {
+			tv, ok := info.Types[e]
+			if !ok || tv.Value == nil {
+				continue
+			}
+			v, _ := constant.Int64Val(tv.Value)
+			if v < 0 || v > 255 {
+				continue
+			}
+			n++
+			key := fmt.Sprintf("jp.tokenMap[%s]", byteName(int(v)))
+			if table[v] == 'o' {
+				rep.Violate(Finding{Rule: "G-jp-first", Key: key, Pos: prog.Pos(e.Pos()), Msg: fmt.Sprintf("byte %s has a case of its own in the fragment dispatch and is marked as a token byte: a first key starting with it is printed bare and read back as another fragment", byteName(int(v)))})
+			} else {
+				rep.Discharge("G-jp-first", key, prog.Pos(e.Pos()), "not a token byte")
+			}
+		}
+	}
+	rep.Eval(n)
+	if n < 5 {
+		rep.Errorf("G-jp-first examined %d dispatch bytes (floor 5)", n)
+	}
+}
